@@ -602,6 +602,14 @@ def scenario_multi(k: Kernel, plan, obs):
                 log.created.append(("parent", pth))
                 if len(pool) != 1:
                     viol.append({"class": "tmp-pool-multi", "site": "second-with:listing", "message": f"len={len(pool)}"})
+                # the pool is shared with child processes in its second context as well
+                late = Child(pool, 1, "child-in-second-with")
+                late.n_remove = 0
+                late.start()
+                late.join()
+                if len(pool) != 2:
+                    viol.append({"class": "tmp-pool-multi", "site": "second-with:listing-after-child",
+                                 "message": f"the parent and a child created one file each, the pool lists {len(pool)}"})
         except Exception as e:  # noqa
             viol.append({"class": "tmp-pool-multi", "site": f"second-with:{type(e).__name__}",
                          "message": "the same multi_proc pool object used by a second with-block: " + repr(e)})
